@@ -112,6 +112,8 @@ def bech32_decode(data: bytes) -> bytes:
     for d in data:
         d = d.to_bytes(1, "big")  # translate back to byte value
         integers.append(bech32_int_map[d])
+    if not integers:
+        return b""
 
     # rearrange into 8-bit groups
     decoded_bits = 5 * len(integers)
